@@ -124,9 +124,10 @@ def check(case, acc, tmp):
     k = case['k']
     ao, as_ = case['ao'], case['as']
     only = case.get('only')
-    # quick tier: the ten further metadata configurations and the per-axis function variants on a reduced set
-    # of receiver selections (every selection of the other operand)
-    extras = case.get('tier') != 'quick' or (ao in (['o1', 'o2'], ['o2', 'o1'], ['o3']) and as_ in (['s1', 's2'], ['s2']))
+    # the ten further metadata configurations and the per-axis function variants on a reduced set of receiver
+    # selections (quick: 6 of them; thorough: the 81 with at most two ids per axis) x every selection of the other operand
+    extras = (len(ao) <= 2 and len(as_) <= 2) if case.get('tier') != 'quick' else \
+        (ao in (['o1', 'o2'], ['o2', 'o1'], ['o3']) and as_ in (['s1', 's2'], ['s2']))
     for bo in [case['bo']]:
         for bs in selections(US, k):
             for ci, cfg in enumerate(MDCFG):
